@@ -80,3 +80,56 @@ Proof.
   split; [vm_compute; reflexivity|]. split; [vm_compute; reflexivity|].
   eexists. split; [vm_compute; reflexivity|]. vm_compute. repeat split; reflexivity.
 Qed.
+
+(* ---- the tie to the source, re-checked by the kernel on every run -------------------------------------
+   Gen/VersionedSrc.v is re-generated from typedpy/serialization/versioned_mapping.py and typedpy/commons.py
+   (harness/genmods/py2v_versioned.py): _convert, convert_dict, deep_get with its helper, Constant.  For EVERY
+   document, mapping history and user-function oracle, what the source computes NOW is what the hand-written
+   model Ser/Versioned.v (on which the theorems above are proved) computes.  [predicted] excludes only the
+   inputs on which the hand model declines (Raise Unmodelled); [mapping_ok]/[plain_version] delimit the
+   encodable mappings and the non-float version numbers. *)
+From TP Require Import Base.PyOps Base.PyOps2 Base.PyOpsVersioned Gen.VersionedSrc Ser.VersionedSrcProofs.
+
+Theorem C17_src_get_next_level :
+  forall (call : pyval -> list pyval -> res pyval) (d : pyval) (key : pystr),
+         Src_get_next_level call d (PStr key) PNone (PBool false) = Ok (get_next_level d key).
+Proof. exact src_get_next_level. Qed.
+
+(* commons.deep_get as _convert calls it, unconditionally *)
+Theorem C17_src_deep_get :
+  forall (call : pyval -> list pyval -> res pyval) (d : pyval) (path : pystr),
+         Src_deep_get call d (PStr path) PNone (PBool false) (PBool false) = Ok (deep_get d path).
+Proof. exact src_deep_get. Qed.
+
+(* versioned_mapping._convert = the model's convert *)
+Theorem C17_src_convert :
+  forall (fn : N -> list pyval -> res pyval) (m : mapping) (d : dict),
+         mapping_ok m = true ->
+         predicted (convert fn m d) = true ->
+         Src_convert (call_of fn) (PDict d) (enc_mapping m) = enc_res (convert fn m d).
+Proof. exact src_convert. Qed.
+
+(* versioned_mapping.convert_dict = the model's convert_dict *)
+Theorem C17_src_convert_dict_gen :
+  forall (fn : N -> list pyval -> res pyval) (d : dict) (maps : list mapping),
+         forallb mapping_ok maps = true ->
+         versions_plain_dict fn d maps = true ->
+         predicted (convert_dict fn d maps) = true ->
+         Src_convert_dict (call_of fn) (PDict d) (enc_maps maps) = enc_res (convert_dict fn d maps).
+Proof. exact src_convert_dict_gen. Qed.
+
+(* the same under C17's own hypotheses (every mapping keeps the version key, the start version is a plain int) *)
+Theorem C17_src_convert_dict :
+  forall (fn : N -> list pyval -> res pyval) (d : dict) (maps : list mapping),
+         forallb mapping_ok maps = true ->
+         forallb keeps_version maps = true ->
+         plain_version d = true ->
+         predicted (convert_dict fn d maps) = true ->
+         Src_convert_dict (call_of fn) (PDict d) (enc_maps maps) = enc_res (convert_dict fn d maps).
+Proof. exact src_convert_dict. Qed.
+
+Print Assumptions C17_src_get_next_level.
+Print Assumptions C17_src_deep_get.
+Print Assumptions C17_src_convert.
+Print Assumptions C17_src_convert_dict_gen.
+Print Assumptions C17_src_convert_dict.
